@@ -313,11 +313,11 @@ Pred ==
    encfiles |-> {FileOf(i) : i \in {i \in ObjPages : Written(i) # FileOf(i)}}]
 PredView == [i \in Ids |-> [id |-> i, parent |-> Objs[i].parent, priv |-> Objs[i].priv, own |-> IsOwn(i),
                             file |-> FileOf(i), frag |-> FragOf(i), intree |-> InTree(i),
-                            root |-> Objs[i].parent = None, docsrc |-> Objs[i].docsrc, bases |-> Range(Objs[i].bases)]]
+                            root |-> Objs[i].parent = None, docsrc |-> Objs[i].docsrc, mro |-> Range(Objs[i].mro)]]
 
 (***************************************************************************)
 (* 4. The properties, over an object view O (id -> [parent, priv, own,     *)
-(*    file, frag, intree, root, docsrc, bases]) and a site S.  From the     *)
+(*    file, frag, intree, root, docsrc, mro]) and a site S.  From the       *)
 (*    statements of C11 / C12, not from the code.  A link means the file   *)
 (*    with the DECODED name (what a browser / web server resolves).        *)
 (***************************************************************************)
@@ -379,10 +379,10 @@ AllObjectsProds == {"nameIndex", "undocced", "classIndex", "searchDoc"}
 \* ... listed by the producers that iterate allobjects, although no page / anchor is written for it
 KF_SupersededListed(O, l) == l.prod \in AllObjectsProds /\ IsSupersededUrl(O, l.file, l.frag)
 \* ... linked as a base class / inherited member / override (class A(A) redefinition idiom), and the subclass of a
-\* superseded base never enters classIndex.html, so its "View In Hierarchy" anchor is missing
+\* superseded ancestor never enters classIndex.html, so its "View In Hierarchy" anchor is missing
 KF_SupersededNotRendered(O, l) == \/ (l.prod \notin AllObjectsProds /\ IsSupersededUrl(O, l.file, l.frag))
                                   \/ (l.prod = "inhierarchy" /\ l.file = "classIndex" /\ l.frag \in DOMAIN O
-                                      /\ \E b \in O[l.frag].bases : b \in Superseded(O))
+                                      /\ \E b \in O[l.frag].mro : b \in Superseded(O))
 \* inherited docstring: "#frag" made for the source's page, rendered on the inheriting member's page
 KF_InheritedDocLink(O, l) == l.prod = "memberDoc" /\ l.file = l.page /\ l.frag # "" /\ l.member \in DOMAIN O
                              /\ O[l.member].docsrc # l.member
@@ -440,7 +440,7 @@ CaseInTree(i) == Case.objs[i].incontents /\ (Case.objs[i].parent = None
                     \/ (Case.objs[i].parent \in DOMAIN Case.objs /\ CaseInTree(Case.objs[i].parent)))
 ObsView == [i \in DOMAIN Case.objs |-> LET o == Case.objs[i] IN
               [id |-> i, parent |-> o.parent, priv |-> o.priv, own |-> o.ownpage, file |-> o.file, frag |-> o.frag,
-               intree |-> CaseInTree(i), root |-> o.parent = None, docsrc |-> o.docsrc, bases |-> Range(o.bases)]]
+               intree |-> CaseInTree(i), root |-> o.parent = None, docsrc |-> o.docsrc, mro |-> Range(o.mro)]]
 ObsMulti == Cardinality(Range(Case.roots)) > 1
 
 Modelled == Range(Case.modelled)       \* producers / entry kinds whose output the model predicts for this case
